@@ -1211,6 +1211,7 @@ func (s *Store) streamBackupDB(ctx context.Context, name string, remotePos ltx.P
 		}
 	}()
 
+	var batchPageSize uint32
 	for txID, n := remotePos.TXID+1, 0; txID <= localPos.TXID && n < MaxBackupLTXFileN; txID, n = txID+1, n+1 {
 		f, err := db.OpenLTXFile(txID)
 		if os.IsNotExist(err) {
@@ -1226,6 +1227,27 @@ func (s *Store) streamBackupDB(ctx context.Context, name string, remotePos ltx.P
 			return ltx.Pos{}, ltx.NewPosMismatchError(remotePos)
 		} else if err != nil {
 			return ltx.Pos{}, fmt.Errorf("open ltx file: %w", err)
+		}
+
+		// A batch is compacted into one file, which has one page size. A database
+		// that was dropped and recreated with another page size starts a new batch.
+		var hdr ltx.Header
+		hdrBuf := make([]byte, ltx.HeaderSize)
+		if _, err := io.ReadFull(f, hdrBuf); err != nil {
+			_ = f.Close()
+			return ltx.Pos{}, fmt.Errorf("read ltx header: %w", err)
+		} else if err := hdr.UnmarshalBinary(hdrBuf); err != nil {
+			_ = f.Close()
+			return ltx.Pos{}, fmt.Errorf("decode ltx header: %w", err)
+		} else if _, err := f.Seek(0, io.SeekStart); err != nil {
+			_ = f.Close()
+			return ltx.Pos{}, fmt.Errorf("seek ltx file: %w", err)
+		}
+		if batchPageSize == 0 {
+			batchPageSize = hdr.PageSize
+		} else if hdr.PageSize != batchPageSize {
+			_ = f.Close()
+			break
 		}
 		rdrs = append(rdrs, f)
 	}
